@@ -115,16 +115,14 @@ func (c *cacheParams) add(p ItemP) {
 func (c *cacheParams) commit(ctx sdk.Context, k common.KeeperOracle) {
 	block := uint64(ctx.BlockHeight())
 	index, _ := k.GetIndexRecentParams(ctx)
+	// keep the newest params older than the replay window as well: recache needs "the latest params before
+	// block b" for every replayed block b, so an entry may only go once a newer one is also out of the window
 	i := 0
-	for ; i < len(index.Index); i++ {
-		b := index.Index[i]
-		if b >= block-uint64(common.MaxNonce) {
+	for ; i+1 < len(index.Index); i++ {
+		if index.Index[i+1] >= block-uint64(common.MaxNonce) {
 			break
 		}
-		k.RemoveRecentParams(ctx, b)
-	}
-	if i > 0 && i == len(index.Index) {
-		i--
+		k.RemoveRecentParams(ctx, index.Index[i])
 	}
 	index.Index = index.Index[i:]
 	// remove and append for KVStore
